@@ -15,17 +15,17 @@ Atomic steps       exactly the LOCK / UNLOCK / WAIT / TSIGNAL / pthread_create /
                    the preceding point, except that reads of racy plain fields that steer control
                    (`sock`, `state`) are separate silent (`tau`) steps, so the model has all the
                    interleavings of the scheduler and more.
-The model follows the code WITH fixes/C13-01 … C13-04 applied (see docs/C13.md):
+The model follows the code WITH fixes/C13-01 … C13-05 applied (see docs/C13.md):
   rfbClientIteratorNext   LOCK L; step (skipping closed clients); rfbIncrClientRef(next); UNLOCK L;
                           rfbDecrClientRef(prev)
   rfbClientConnectionGone LOCK L; LOCK R; while refCount>0 {UNLOCK L; WAIT d,R; UNLOCK R; LOCK L;
                           LOCK R}; UNLOCK R; unlink; UNLOCK L; ...; clientGoneHook; ...;
                           LOCK O; UNLOCK O; LOCK S; UNLOCK S; free
   rfbCloseClient          LOCK U; TSIGNAL u; UNLOCK U; state = SHUTDOWN; write(notify pipe)
-  rfbWriteExact           LOCK O; ...; UNLOCK O on every path
+  rfbWriteExact           LOCK O; read cl->sock; ...; UNLOCK O on every path
   clientInput             create output thread; loop {test state/sock; select; pipe => break;
                           messages}; LOCK U; state = SHUTDOWN; TSIGNAL u; UNLOCK U; join output;
-                          close; sock = -1; rfbClientConnectionGone
+                          LOCK O; close; sock = -1; UNLOCK O; rfbClientConnectionGone
   clientOutput            loop {test; LOCK U; state==SHUTDOWN => UNLOCK U, return; WAIT u,U | have
                           update; UNLOCK U}; LOCK U; UNLOCK U; ref++; LOCK S;
                           rfbSendFramebufferUpdate; UNLOCK S; ref--
@@ -109,7 +109,7 @@ inductive CPc where
 inductive IPc where
   | notStarted | createO | sel
   | w1 | f1 | f2 | e1 | k (st : KSt)
-  | x0 | x0s | x1 | x2 | x3 | x4 | g (st : GSt) | exiting | exited
+  | x0 | x0s | x1 | x2 | x3 | x4 | x4s | x4u | g (st : GSt) | exiting | exited
   deriving DecidableEq, Repr
 
 inductive OPc where
@@ -579,7 +579,10 @@ def inpSucc (s : State) (c : Nat) : List (Lbl × State) :=
     if (s.cl c).opc = .exited then
       [(.join (.out c), setI (updCl (raiseIf s .badJoin (s.cl c).ojoined) c (fun x => { x with ojoined := true })) c .x4)]
     else []
-  | .x4 => [(.sock c, setI (updCl (touch s c) c (fun x => { x with sockOpen := false })) c (.g .lockL))]
+  -- the socket is closed under outputMutex: no writer of another thread is between reading cl->sock and write()
+  | .x4 => (doLock s t .O c).toList.map fun s1 => (.lock .O c, setI s1 c .x4s)
+  | .x4s => [(.sock c, setI (updCl (touch s c) c (fun x => { x with sockOpen := false })) c .x4u)]
+  | .x4u => [(.unlock .O c, setI (doUnlock s t .O c) c (.g .lockL))]
   | .g st => goneSucc s t st c (fun s1 g1 => setI s1 c (.g g1)) (fun s1 => setI s1 c .exiting)
   | .exiting => [(.exit, setI s c .exited)]
 
